@@ -58,6 +58,7 @@ pub mod inner { pub struct M { pub a: super::Tr, pub b: super::Tr } }
 
 
 SUPPORT_EXTRA = SUPPORT_EXTRA.replace("TUPLE_STRUCTS_1_TO_16", "\n".join(f"pub struct TS{n}(" + ", ".join(["pub Tr"] * n) + ");" for n in range(1, 17)))
+SUPPORT_EXTRA = SUPPORT_EXTRA.replace("BRACED_STRUCTS_WIDE", "\n".join(f"pub struct TG{n}<A>(" + ", ".join(["pub A"] + ["pub Tr"] * (n - 1)) + ");" for n in range(1, 17)) + "\nBRACED_STRUCTS_WIDE")
 SUPPORT_EXTRA = SUPPORT_EXTRA.replace("BRACED_STRUCTS_WIDE", "\n".join(f"pub struct BS{n} {{ " + ", ".join(f"pub f{i}: Tr" for i in range(n)) + " }" for n in (5, 8, 12, 16, 20)))
 
 
@@ -124,6 +125,15 @@ def programs(tier):
             nm2 = list(names)
             nm2[pos] = "_"
             prog(f"tuple struct arity {n} with _ at {pos}", make, f"konst::destructure!{{TS{n}({', '.join(nm2)}) = v}}", [(nm, i + 1) for i, nm in enumerate(names) if i != pos], [pos + 1])
+    # ---- generic tuple structs given as a type with arguments (`TG3::<Tr>, (a, b, c)`): a third syntactic route with its own table
+    for n in range(1, 17):
+        make = f"TG{n}(" + ", ".join(f"tr({i})" for i in range(1, n + 1)) + ")"
+        names = [f"e{i}" for i in range(1, n + 1)]
+        prog(f"generic tuple struct arity {n}, `Type::<Args>, (..)` form", make, f"konst::destructure!{{TG{n}::<Tr>, ({', '.join(names)}) = v}}", [(nm, i + 1) for i, nm in enumerate(names)], [])
+        if n >= 2:
+            nm2 = list(names)
+            nm2[n - 1] = "_"
+            prog(f"generic tuple struct arity {n}, `Type::<Args>, (..)` form, last ignored", make, f"konst::destructure!{{TG{n}::<Tr>, ({', '.join(nm2)}) = v}}", [(nm, i + 1) for i, nm in enumerate(names[:-1])], [n])
     # ---- wide braced structs (more fields than any internal table), fields listed in reverse order
     for n in (5, 8, 12, 16, 20):
         make = f"BS{n} {{ " + ", ".join(f"f{i}: tr({i + 1})" for i in range(n)) + " }"
